@@ -158,7 +158,10 @@ pub fn units(tier: Tier, seed: u64) -> Vec<Unit> {
         // every party has a destination here: the notification rule is what is being checked
         let n = cfg.n();
         cfg.outputs = (0..n).map(|p| (seed as usize + p) % 4 != 3).collect();
-        let scripts: Vec<Vec<usize>> = tier.pick(vec![vec![], vec![1, 1]], vec![vec![], vec![1, 1], vec![0, 1, 0, 1], vec![1, 0, 2], vec![0, 1], vec![1, 0, 1, 1], vec![0, 0, 1], vec![1, 2, 0, 1]]);
+        let mut scripts: Vec<Vec<usize>> = tier.pick(vec![vec![], vec![1, 1]], vec![vec![], vec![1, 1], vec![0, 1, 0, 1], vec![1, 0, 2], vec![0, 1], vec![1, 0, 1, 1], vec![0, 0, 1], vec![1, 2, 0, 1]]);
+        if tier == Tier::Thorough {
+            scripts.extend(crate::checks::c13::random_scripts(seed, 24));
+        }
         for script in scripts {
             for target in 0..n {
                 v.push(Unit { cfg: cfg.clone(), script: script.clone(), target });
